@@ -10,17 +10,29 @@ a scripted permutation; the density estimators by a recorder of their input),
 and every returned array (shape and contents) is compared *inside Coq* with the
 model's answer (`vm_compute` on coq/gen/C14/*.v).  On a disagreement the
 property itself is evaluated on the implementation by direct indexing.
+
+Histories with interrupted calls (Model/ReadoutsSteps.v, theorems C14_history_chain,
+C14_readouts_after_interruptions, ...): real GibbsChain / MetropolisChain / PcaChain /
+HamiltonianChain / EnsembleSampler objects are driven with scripted randomness; at a
+chosen evaluation of the posterior (or of its gradient) inside take_step / advance an
+exception is raised (every evaluation of the call is tried), the chain is read out, then
+advanced further and read out again.  The store shapes seen from inside every
+evaluation and all read-outs are compared in Coq with `run_history` / `trace` /
+`answer`; doubles are mapped to integers by an order-preserving injection.
 """
 from __future__ import annotations
 
 import json
 import math
+import struct
 import warnings
 from fractions import Fraction
 
 import numpy as np
 
 from lib import common as C
+from lib import samplers as S
+from lib import sampler_cases as SC
 
 PROP = "C14"
 THEOREMS = ["C14_slice_nth", "C14_slice_length", "C14_slice_positions",
@@ -28,6 +40,8 @@ THEOREMS = ["C14_slice_nth", "C14_slice_length", "C14_slice_positions",
             "C14_interval_rows_own", "C14_interval_top_fraction", "C14_interval_partition",
             "C14_interval_all", "C14_interval_count", "C14_interval_two_dimensional",
             "C14_interval_fraction",
+            "C14_interrupted_call_leaves_chain", "C14_call_evaluations_see_old_chain",
+            "C14_history_chain", "C14_readouts_after_interruptions", "C14_nonatomic_step_refuted",
             "C14_hmc_squeeze_refuted", "C14_hmc_empty_sample_refuted",
             "C14_get_interval_count_refuted"]
 
@@ -127,9 +141,10 @@ def to_obs(a):
     return (tuple(int(s) for s in a.shape), flat)
 
 
-def run_query(ch, q, patch):
+def run_query(ch, q, patch, conv=None):
     """Run one query on the real object.  Returns ("ok", [obs...], extra) or
-    ("exception", repr, extra)."""
+    ("exception", repr, extra).  `conv` turns a returned array into (shape, integers)."""
+    conv = conv or to_obs
     kind = q["q"]
     extra = {}
     try:
@@ -158,7 +173,7 @@ def run_query(ch, q, patch):
                 extra["perm_calls"] = len(calls)
             else:
                 raise ValueError(kind)
-        return "ok", [to_obs(a) for a in out], extra
+        return "ok", [conv(a) for a in out], extra
     except Exception as e:  # every generated query is one the documented interface accepts
         return "exception", repr(e), extra
 
@@ -358,6 +373,472 @@ def key_of(case, q):
     return f"C14/{case['kind']}/{q['q']}" + ("-count" if q.get("samples") is not None else "")
 
 
+# ---------------------------------------------------------------- histories with interrupted calls
+H_HEADER = """From Coq Require Import List ZArith.
+From IT Require Import Model.Readouts Model.ReadoutsSteps.
+Import ListNotations.
+Open Scope Z_scope.
+"""
+H_KINDS = ["gibbs", "metro", "pca", "hmc", "ensemble"]
+H_TAG = {"gibbs": "Gibbs", "metro": "Gibbs", "pca": "Pca", "hmc": "Hmc", "ensemble": "Ens"}   # read-out model
+H_NAME = {"gibbs": "GibbsChain", "metro": "MetropolisChain", "pca": "PcaChain", "hmc": "HamiltonianChain",
+          "ensemble": "EnsembleSampler"}
+H_EXCS = {"KeyboardInterrupt": KeyboardInterrupt, "FloatingPointError": FloatingPointError}
+
+
+def zkey(x):
+    """Order-preserving injection of the doubles into the integers (-0.0 and 0.0 coincide)."""
+    x = float(x)
+    if x != x:
+        raise ValueError("NaN in a read-out")
+    m = struct.unpack("<q", struct.pack("<d", abs(x)))[0]
+    return m if x >= 0 else -m
+
+
+def unkey(k):
+    v = struct.unpack("<d", struct.pack("<q", abs(int(k))))[0]
+    return v if k >= 0 else -v
+
+
+def to_obs_key(a):
+    a = np.asarray(a)
+    return (tuple(int(s) for s in a.shape), [zkey(v) for v in a.reshape(-1).tolist()])
+
+
+class RunawayCall(Exception):
+    pass
+
+
+class CallHook:
+    """Runs inside every evaluation of the posterior / its gradient of the real sampler: notes the
+    shape of the stored history at that moment and, when armed, raises at the k-th evaluation."""
+    LIMIT = 5000      # evaluations in one call; a tree whose chain state is inconsistent can loop for ever
+
+    def __init__(self, ch, kind):
+        self.ch, self.kind = ch, kind
+        self.begin()
+
+    def begin(self):
+        self.count, self.shapes, self.crash_at, self.exc, self.fired = 0, [], 0, None, False
+
+    def arm(self, k, exc):
+        self.crash_at, self.exc = k, exc
+
+    def __call__(self, *_):
+        self.count += 1
+        if self.count > self.LIMIT:
+            raise RunawayCall(f"more than {self.LIMIT} evaluations of the posterior in one call")
+        self.shapes.append(h_shape(self.ch, self.kind))
+        if self.crash_at and self.count == self.crash_at:
+            self.crash_at, self.fired = 0, True
+            raise self.exc("simulated interruption inside the posterior")
+
+
+def h_shape(ch, kind):
+    if kind in ("gibbs", "metro", "pca"):
+        return ([len(p.samples) for p in ch.params], len(ch.probs))
+    if kind == "hmc":
+        return ([len(ch.theta)], len(ch.probs))
+    return ([0 if ch.sample is None else int(np.shape(ch.sample)[0])],
+            0 if ch.sample_probs is None else int(np.size(ch.sample_probs)))
+
+
+def h_chain(ch, kind):
+    """The stored chain of a freshly built sampler as (rows, probs) of integer keys."""
+    if kind in ("gibbs", "metro", "pca"):
+        n = len(ch.probs)
+        return [[zkey(p.samples[k]) for p in ch.params] for k in range(n)], [zkey(v) for v in ch.probs]
+    if kind == "hmc":
+        return [[zkey(v) for v in t] for t in ch.theta], [zkey(v) for v in ch.probs]
+    if ch.sample is None:
+        return [], []
+    return [[zkey(v) for v in t] for t in ch.sample], [zkey(v) for v in ch.sample_probs]
+
+
+def h_state(ch, kind):
+    """What a call that has just returned leaves as the new end of the chain: the current state."""
+    if kind in ("gibbs", "metro", "pca"):
+        return [[zkey(v) for v in ch.get_last()]], [zkey(ch.probs[-1])]
+    if kind == "hmc":
+        return [[zkey(v) for v in ch.theta[-1]]], [zkey(ch.probs[-1])]
+    return [[zkey(v) for v in w] for w in ch.walker_positions], [zkey(v) for v in ch.walker_probs]
+
+
+def h_open(cfg):
+    ch, post, rng, fn = SC.build(cfg)
+    hook = CallHook(ch, cfg["kind"])
+    post.delay = hook                      # called from inside RecordingPosterior.__call__
+    if post.gfn is not None:
+        g0 = post.gfn
+
+        def gfn(th, _g0=g0, _hook=hook):   # ... and from inside RecordingPosterior.gradient
+            _hook()
+            return _g0(th)
+        post.gfn = gfn
+    return ch, hook
+
+
+def h_call(ch, entry, nadv):
+    with S.quiet():
+        if entry == "take_step":
+            ch.take_step()
+        else:
+            ch.advance(nadv)
+
+
+def h_reference(cfg, nsteps):
+    """Uninterrupted run, one take_step at a time: evaluations and new rows of every step."""
+    ch, hook = h_open(cfg)
+    out = []
+    for _ in range(nsteps):
+        hook.begin()
+        h_call(ch, "take_step", 1)
+        rows, probs = h_state(ch, cfg["kind"])
+        out.append({"ne": hook.count, "rows": rows, "probs": probs})
+    return out
+
+
+def h_queries(rq, tag, n, npar, probs):
+    pairs = {(0, 1), (1, 1), (0, 2), (rq.randint(0, n), rq.randint(1, n + 1)), (max(n - 1, 0), 1),
+             (n, rq.choice([1, 2]))}
+    pairs = [(0, 1)] + rq.sample(sorted(pairs - {(0, 1)}), min(2, len(pairs) - 1))
+    qs = [{"q": "param", "i": i, "burn": 0, "thin": 1} for i in range(npar)]
+    qs += gen_queries(rq, tag, n, npar, pairs, dense=False)
+    if len(set(probs)) != len(probs):
+        # equal log-probabilities: argsort order (and the duplicate test of the oracle) is not determined
+        qs = [q for q in qs if q["q"] != "interval"]
+    return qs
+
+
+def h_scenario(cfg, sc, ref, patch, queries_for):
+    """Drive the real sampler through: `pre` completed steps, one call (`entry`) whose `crash`-th
+    evaluation raises, read-outs, `post` completed steps, read-outs.
+    queries_for(segment index, n, probs) -> queries.  Returns the case dict."""
+    kind, npar = cfg["kind"], cfg["n"]
+    ch, hook = h_open(cfg)
+    rows, probs = h_chain(ch, kind)
+    case = {"hist": True, "cfg": cfg, "sc": sc, "kind": H_TAG[kind], "name": H_NAME[kind], "npar": npar,
+            "init": (list(rows), list(probs)), "segments": [], "anomaly": None}
+    rows, probs = list(rows), list(probs)
+
+    def completed_steps(m):
+        out = []
+        for _ in range(m):
+            hook.begin()
+            h_call(ch, "take_step", 1)
+            r_, p_ = h_state(ch, kind)
+            out.append(({"ne": hook.count, "rows": r_, "probs": p_, "crash": 0}, list(hook.shapes)))
+            rows.extend(r_)
+            probs.extend(p_)
+        return out
+
+    def close_segment(steps):
+        qs = queries_for(len(case["segments"]), len(probs), list(probs))
+        res = [run_query(ch, q, patch, conv=to_obs_key) for q in qs]
+        case["segments"].append({"steps": steps, "queries": qs, "results": res,
+                                 "rows": list(rows), "probs": list(probs)})
+
+    try:
+        steps = completed_steps(sc["pre"])
+        # the interrupted call
+        k = sc["crash"]
+        hook.begin()
+        hook.arm(k, H_EXCS[sc["exc"]])
+        try:
+            h_call(ch, sc["entry"], sc["nadv"])
+        except BaseException as e:
+            if not hook.fired:
+                raise
+        if not hook.fired:
+            case["anomaly"] = (f"the call made fewer than {k} evaluations although the same call of an identically "
+                               f"built sampler made more")
+            return case
+        shapes = list(hook.shapes)
+        part = ref[sc["pre"]: sc["pre"] + (sc["nadv"] if sc["entry"] == "advance" else 1)]
+        if kind == "ensemble" and sc["entry"] == "advance":
+            # EnsembleSampler.advance: all iterations, then one concatenate
+            steps.append(({"ne": sum(s["ne"] for s in part), "rows": [r for s in part for r in s["rows"]],
+                           "probs": [p for s in part for p in s["probs"]], "crash": k}, shapes))
+        else:
+            cum = 0
+            for s in part:
+                if k > cum + s["ne"]:
+                    steps.append((dict(s, crash=0), shapes[cum:cum + s["ne"]]))
+                    rows.extend(s["rows"])
+                    probs.extend(s["probs"])
+                    cum += s["ne"]
+                else:
+                    steps.append((dict(s, crash=k - cum), shapes[cum:]))
+                    break
+        close_segment(steps)
+        close_segment(completed_steps(sc["post"]))
+    except Exception as e:
+        case["anomaly"] = f"a call that is not interrupted raised {e!r}"
+    return case
+
+
+def h_plan(r, tier):
+    """-> list of (cfg, scenario, reference)"""
+    plans = []
+    ncfg = 3 if tier == "quick" else 10
+    kmax = 10 if tier == "quick" else 40
+    for kind in H_KINDS:
+        got = 0
+        for _attempt in range(ncfg * 4):
+            if got >= ncfg:
+                break
+            cfg = SC.make_config(r, kind)
+            if kind in ("gibbs", "metro", "pca") and got == 0 and cfg["n"] < 2:
+                continue                      # at least one chain with several parameters per sampler
+            pre = r.randint(1, 3) if kind == "ensemble" else r.randint(0, 3)
+            nadv = r.randint(2, 3)
+            try:
+                ref = h_reference(cfg, pre + nadv)
+            except Exception as e:
+                plans.append((cfg, None, repr(e)))
+                got += 1
+                continue
+            got += 1
+            K1 = ref[pre]["ne"]
+            ks = list(range(1, K1 + 1))
+            if len(ks) > kmax:
+                ks = sorted(set([1, 2, K1 - 1, K1] + r.sample(ks, kmax - 4)))
+            for k in ks:
+                plans.append((cfg, {"pre": pre, "entry": "take_step", "nadv": 1, "crash": k,
+                                    "exc": r.choice(sorted(H_EXCS)), "post": r.randint(1, 3)}, ref))
+            Kall = sum(s["ne"] for s in ref[pre:pre + nadv])
+            later = list(range(K1 + 1, Kall + 1))
+            for k in sorted(set(r.sample(later, min(len(later), 3 if tier == "quick" else 8)) + [Kall])):
+                plans.append((cfg, {"pre": pre, "entry": "advance", "nadv": nadv, "crash": k,
+                                    "exc": r.choice(sorted(H_EXCS)), "post": r.randint(1, 3)}, ref))
+    return plans
+
+
+def coq_shape(sh):
+    return f"({C.clist([C.cnat(v) for v in sh[0]])}, {C.cnat(sh[1])})"
+
+
+def coq_step(s):
+    rows = C.clist([C.clist([C.cz(v) for v in rw]) for rw in s["rows"]])
+    return f"(mkStep {C.cnat(s['ne'])} {rows} {C.clist([C.cz(v) for v in s['probs']])} {C.cnat(s['crash'])})"
+
+
+def coq_hcase(case):
+    """-> (term, per segment the indices of the queries that are in the term)"""
+    rows, probs = case["init"]
+    tag, npar = case["kind"], case["npar"]
+    data = [[rw[i] for rw in rows] for i in range(npar)] if tag in COLMAJOR else rows
+    st = f"({C.clist([C.clist([C.cz(v) for v in l]) for l in data])}, {C.clist([C.cz(v) for v in probs])})"
+    segs, kept = [], []
+    for seg in case["segments"]:
+        n = len(seg["probs"])
+        sos = C.clist([f"({coq_step(s)}, {C.clist([coq_shape(x) for x in shp])})" for s, shp in seg["steps"]],
+                      ";\n     ")
+        qos, ks = [], []
+        for qi, (q, (status, obs, extra)) in enumerate(zip(seg["queries"], seg["results"])):
+            if status == "ok":
+                qos.append(f"({coq_query(tag, n, q, extra)}, {C.clist([coq_obs(o) for o in obs])})")
+                ks.append(qi)
+        segs.append(f"({sos},\n    {C.clist(qos, ';' + chr(10) + '     ')})")
+        kept.append(ks)
+    return f"({tag}, {C.cnat(npar)}, {st},\n  {C.clist(segs, ';' + chr(10) + '   ')})", kept
+
+
+def h_describe(case, si, q, status, obs, extra):
+    seg = case["segments"][si]
+    sc = case["sc"]
+    return {"sampler": case["name"], "n_parameters": case["npar"],
+            "scenario": {"config": SC.describe(case["cfg"]), "sc": sc, "segment": si},
+            "history": f"{case['name']} built from `config` with scripted randomness; {sc['pre']} x take_step(); "
+                       f"{sc['entry']}({'' if sc['entry'] == 'take_step' else sc['nadv']}) during which evaluation "
+                       f"number {sc['crash']} of the posterior / gradient raises {sc['exc']}"
+                       + ("; then this query" if si == 0 else f"; {sc['post']} x take_step(); then this query"),
+            "chain_rows": [[unkey(v) for v in rw] for rw in seg["rows"]],
+            "chain_probs": [unkey(v) for v in seg["probs"]],
+            "query": q, "perm": extra.get("perm"), "impl_status": status,
+            "impl_output": obs if status != "ok" else [[list(o[0]), [unkey(v) for v in o[1]]] for o in obs]}
+
+
+def h_key(case, q, bad):
+    key = f"C14/{case['name']}/interrupted/{q['q']}" + ("-count" if q.get("samples") is not None else "")
+    if bad:
+        key += "/" + ("ndim" if "dimensions" in bad[0] else "exception" if "raised" in bad[0] else
+                      "shape" if "shape" in bad[0] else "content")
+    return key
+
+
+def run_histories(rep, tier, patch):
+    """The history dimension: interrupted calls.  Returns the number of validated queries."""
+    r = C.rng_for(PROP, "histories")
+    rq = C.rng_for(PROP, "history-queries")
+    cases = []
+    for cfg, sc, ref in h_plan(r, tier):
+        if sc is None:
+            rep.violation(f"C14/{H_NAME[cfg['kind']]}/history-exception",
+                          f"{H_NAME[cfg['kind']]}: an uninterrupted run raised {ref}",
+                          {"theorem_or_correspondence": "Model.ReadoutsSteps (histories of calls)",
+                           "case": {"config": SC.describe(cfg)}}, False)
+            continue
+        tag = H_TAG[cfg["kind"]]
+        case = h_scenario(cfg, sc, ref, patch,
+                          lambda si, n, probs: h_queries(rq, tag, n, cfg["n"], probs))
+        cases.append(case)
+        K = ref[sc["pre"]]["ne"]
+        rep.count(f"interrupted:sampler={case['name']}")
+        rep.count(f"interrupted:entry={sc['entry']}")
+        rep.count(f"interrupted:exception={sc['exc']}")
+        rep.count("interrupted:crash_point=" + ("first evaluation" if sc["crash"] == 1 else
+                                                 "last evaluation of the step" if sc["crash"] == K else
+                                                 "in a later step of advance()" if sc["crash"] > K else "inside"))
+        for seg in case["segments"]:
+            for q in seg["queries"]:
+                rep.count("interrupted:query=" + q["q"] + ("+count" if q.get("samples") is not None else ""))
+                rep.case((case["name"], sorted(sc.items()), cfg["rng_seed"], len(seg["probs"]),
+                          sorted(q.items(), key=str)), nontrivial=True)
+    if len(rep.samples) < 4:
+        for case in cases:
+            if case["segments"] and case["cfg"]["n"] >= 2:
+                seg = case["segments"][0]
+                rep.sample({"sampler": case["name"], "scenario": case["sc"],
+                            "chain_after_interruption": [[unkey(v) for v in rw] for rw in seg["rows"]][:4],
+                            "store_shapes_seen_by_the_interrupted_call": seg["steps"][-1][1][:6],
+                            "query": seg["queries"][0], "impl_output": seg["results"][0][1]})
+                break
+
+    # anomalies: the sampler could not be driven through the scenario
+    for case in cases:
+        if case["anomaly"]:
+            rep.violation(f"C14/{case['name']}/history-exception", f"{case['name']}: {case['anomaly']}",
+                          {"theorem_or_correspondence": "Model.ReadoutsSteps (histories of calls)",
+                           "case": {"config": SC.describe(case["cfg"]), "sc": case["sc"]}}, False)
+    cases = [c for c in cases if not c["anomaly"]]
+
+    # correspondence inside Coq
+    suspicious = set()      # (case, segment, query index) ; query index None = store shapes
+    terms = [coq_hcase(c) for c in cases]
+    for ci, case in enumerate(cases):
+        for si, seg in enumerate(case["segments"]):
+            for qi, rr in enumerate(seg["results"]):
+                if rr[0] != "ok":
+                    suspicious.add((ci, si, qi))
+    files, spans = [], []
+    cur, cur_sz, start = [], 0, 0
+    for ci, (txt, _) in enumerate(terms):
+        cur.append(txt)
+        cur_sz += len(txt)
+        if cur_sz > 250_000 or ci == len(terms) - 1:
+            body = "Definition hcases : list hcase :=\n " + C.clist(cur, ";\n ") + "."
+            files.append(C.write_case_file(PROP, f"hist_{len(files)}", H_HEADER, body,
+                                           ["failing check_hcase hcases 0"]))
+            spans.append((start, len(cur)))
+            cur, cur_sz, start = [], 0, ci + 1
+    n_checked = 0
+    failing_cases = []
+    for p, (st0, cnt), (ok, res, log) in zip(files, spans, C.run_case_files(files, jobs=14)):
+        if not ok or 0 not in res:
+            rep.obligation(False)
+            rep.violation("C14/correspondence-run", f"case file {p.name} did not evaluate",
+                          {"theorem_or_correspondence": f"correspondence file {p.name}", "log": log}, False)
+            continue
+        rep.obligation(True)
+        n_checked += sum(len(ks) for ci in range(st0, st0 + cnt) for ks in terms[ci][1])
+        failing_cases += [st0 + j for j in res[0]]
+    # which segment / query of a failing case: second, small Coq run (smallest cases first)
+    failing_cases.sort(key=lambda ci: len(terms[ci][0]))
+    dfiles = [C.write_case_file(PROP, f"hist_detail_{k}", H_HEADER,
+                                f"Definition the_case : hcase :=\n {terms[ci][0]}.", ["hcase_failures the_case"])
+              for k, ci in enumerate(failing_cases[:28])]
+    for ci, (ok, res, log) in zip(failing_cases[:28], C.run_case_files(dfiles, jobs=14)):
+        if ok and 0 in res:
+            for code in res[0]:
+                si, j = divmod(code, 1000)
+                suspicious.add((ci, si, None if j == 999 else terms[ci][1][si][j]))
+        else:
+            suspicious.add((ci, 0, None))
+    for ci in failing_cases[28:]:
+        suspicious.add((ci, 0, None))
+    rep.coverage["interrupted_call_histories"] = len(cases)
+    rep.coverage["interrupted_call_disagreements"] = len(suspicious)
+
+    # failing-input search: the property itself on what the implementation returned
+    best = {}
+    shape_only = {}
+    for ci, si, qi in sorted(suspicious, key=lambda t: (len(terms[t[0]][0]), t[1], -1 if t[2] is None else t[2])):
+        case = cases[ci]
+        if qi is None:
+            shape_only.setdefault(case["name"], (case, si))
+            continue
+        seg = case["segments"][si]
+        q = seg["queries"][qi]
+        status, obs, extra = seg["results"][qi]
+        bad = oracle(case["kind"], case["npar"], seg["rows"], seg["probs"], q, status, obs, extra)
+        key = h_key(case, q, bad)
+        if key in best:
+            continue
+        best[key] = True
+        if bad:
+            sc = case["sc"]
+            rep.violation(key, f"{case['name']} after {sc['entry']} was interrupted at evaluation {sc['crash']}"
+                               + ("" if si == 0 else f" and {sc['post']} more steps") + f", {q['q']}: "
+                               + "; ".join(bad[:2]),
+                          {"case": h_describe(case, si, q, status, obs, extra)}, True)
+        else:
+            rep.violation(key + "/correspondence",
+                          "implementation and model disagree on a read-out after an interrupted call, but the "
+                          "property was not seen to fail on this input",
+                          {"theorem_or_correspondence": "Model.ReadoutsSteps.check_hcase (run_history + answer)",
+                           "case": h_describe(case, si, q, status, obs, extra)}, False)
+    for name, (case, si) in shape_only.items():
+        seg = case["segments"][si]
+        rep.violation(f"C14/{name}/interrupted/store-shapes/correspondence",
+                      f"{name}: the stored history seen from inside the posterior during a call is not the history "
+                      f"before the call (the model stores nothing before the last evaluation has returned)",
+                      {"theorem_or_correspondence": "Model.ReadoutsSteps.trace (C14_call_evaluations_see_old_chain)",
+                       "case": {"sampler": name, "config": SC.describe(case["cfg"]), "sc": case["sc"], "segment": si,
+                                "observed_store_shapes_per_call": [shp for _, shp in seg["steps"]]}}, False)
+
+    # [R] second opinion: the oracle on a slice of the agreeing queries
+    stride = 4 if tier == "quick" else 2
+    for ci, case in enumerate(cases):
+        for si, seg in enumerate(case["segments"]):
+            for qi in range((ci + si) % stride, len(seg["queries"]), stride):
+                if (ci, si, qi) in suspicious:
+                    continue
+                q = seg["queries"][qi]
+                status, obs, extra = seg["results"][qi]
+                bad = oracle(case["kind"], case["npar"], seg["rows"], seg["probs"], q, status, obs, extra)
+                if bad and h_key(case, q, bad) not in best:
+                    best[h_key(case, q, bad)] = True
+                    rep.violation(h_key(case, q, bad), f"{case['name']} {q['q']}: " + "; ".join(bad[:2]),
+                                  {"case": h_describe(case, si, q, status, obs, extra)}, True)
+    return n_checked
+
+
+def replay_scenario(c):
+    s = c["scenario"]
+    cfg = SC.undescribe(s["config"])
+    sc = s["sc"]
+    q = c["query"]
+    perm = c.get("perm") or []
+
+    class OnePerm(Patched):
+        def permutation(self, x):
+            self.perm_log.append(list(perm))
+            return np.array(perm if len(perm) == int(x) else list(range(int(x))))
+    ref = h_reference(cfg, sc["pre"] + sc["nadv"])
+    with OnePerm(None) as patch:
+        case = h_scenario(cfg, sc, ref, patch, lambda si, n, probs: [q] if si == s["segment"] else [])
+    if case["anomaly"]:
+        print("could not drive the sampler through the scenario:", case["anomaly"])
+        return 1
+    seg = case["segments"][s["segment"]]
+    status, obs, extra = seg["results"][0]
+    print("implementation returns:", status, obs if status != "ok" else [(o[0], [unkey(v) for v in o[1]]) for o in obs])
+    bad = oracle(case["kind"], case["npar"], seg["rows"], seg["probs"], q, status, obs, extra)
+    print("property failures:", bad)
+    return 1 if bad else 0
+
+
 # ---------------------------------------------------------------- the run
 def run(rep: C.Report, tier: str) -> int:
     r = C.rng_for(PROP, "cases")
@@ -412,6 +893,9 @@ def run(rep: C.Report, tier: str) -> int:
                 except Exception as e:
                     rep.violation("C14/exception", f"{case['kind']}: replace_last / re-read failed: {e!r}",
                                   {"case": {"sampler": case["kind"], "rows": case["rows"], "probs": case["probs"]}}, True)
+
+        # history dimension: calls interrupted from inside the posterior, then read out / advanced further
+        n_hist_checked = run_histories(rep, tier, patch)
 
     cases = cases + extra_cases
     all_results = all_results + extra_results
@@ -483,7 +967,8 @@ def run(rep: C.Report, tier: str) -> int:
                     suspicious.append((ci, qis[j]))
             else:
                 suspicious.append((ci, qis[0]))
-    rep.coverage["traces_validated_against_impl"] = n_checked
+    rep.coverage["traces_validated_against_impl"] = n_checked + n_hist_checked
+    rep.coverage["readouts_validated_after_interrupted_calls"] = n_hist_checked
     rep.coverage["correspondence_disagreements"] = len(suspicious)
     rep.coverage["histories"] = len(cases)
 
@@ -561,6 +1046,10 @@ def run(rep: C.Report, tier: str) -> int:
         "histories are injected into real sampler objects (attributes samples / probs / theta / sample / sample_probs)",
         "get_marginal: the density estimators are replaced by a recorder of their argument (plus a few real GaussianKDE builds [R])",
         "EnsembleSampler read-outs before the first advance (sample is None) are outside the model",
+        "interrupted calls: the exception is raised from inside the posterior / gradient callable (the only user code "
+        "a step runs); doubles of the real chain are mapped to integers by an order-preserving injection; the rows "
+        "a completed call adds are read from the sampler's current state (get_last / theta[-1] / walker positions) "
+        "right after the call; get_interval is not queried on chains holding equal log-probabilities",
     ]
     return rep.finish(
         level="proof",
@@ -571,7 +1060,12 @@ def run(rep: C.Report, tier: str) -> int:
              "1..n+2, lengths up to 120 (800) with sampled burn/thin incl. values beyond the end; per (burn, thin): "
              "get_parameter, get_probabilities, get_sample, get_marginal input, get_interval without and with a "
              "requested count (1, n, n+3, random) over 9 fixed and random fractions, scripted permutation; a case "
-             "is non-trivial when the history has >= 2 steps; distinct = distinct (history, query)")
+             "is non-trivial when the history has >= 2 steps; distinct = distinct (history, query); plus real "
+             "GibbsChain / MetropolisChain / PcaChain / HamiltonianChain / EnsembleSampler runs (3 (10) random "
+             "configurations each, scripted randomness): 0-3 steps, then take_step() interrupted at EVERY evaluation "
+             "of the posterior / gradient of that step (<= 10 (40) points) and advance(2-3) interrupted in a later "
+             "step, by KeyboardInterrupt or FloatingPointError; all read-outs straight after the interruption and "
+             "again after 1-3 further steps; store shapes seen from inside every evaluation")
 
 
 # ---------------------------------------------------------------- replay
@@ -582,6 +1076,8 @@ def replay(path):
         print("replay names a broken theorem / correspondence:", rp.get("theorem_or_correspondence"))
         return 1
     c = rp["case"]
+    if "scenario" in c:
+        return replay_scenario(c)
     q = c["query"]
     perm = c.get("perm") or []
 
